@@ -207,6 +207,13 @@ Inductive oentry :=                         (* what the caller of the wrapper se
 | OType (name : string) (typ : Z)
 | OOther (kind : Z) (a b : string).
 
+Definition is_nhcb (o : oentry) : bool := match o with ONhcb _ _ => true | _ => false end.
+(* a wrapped parser's entry as the caller would see it without conversion *)
+Definition to_o (e : bentry) : oentry :=
+  match e with
+  | BSeries s v => OSeries s v | BHist s h => OHist s h | BType n t => OType n t | BOther k a b => OOther k a b
+  end.
+
 Inductive cstate := SStart | SCollecting | SInhibiting.   (* stateEmitting is internal to [step] *)
 
 (* the exemplar buffer: tempExemplars (physical array up to its capacity, its length) and
